@@ -3,9 +3,30 @@ From Coq Require Import List NArith Bool.
 Import ListNotations.
 From Verif Require Import Base.Val C41.Lts gen.Tables_protocol C35.Model_C35 C35.Spec_C35 C35.Proofs_C35.
 
+(* table obligation, re-proved against the literals of today's sources: every command literal python
+   writes is dispatched by the daemon to the intended arm, every reply literal python expects for a
+   command is one the daemon's arm for it writes, every request/notice literal the daemon writes is
+   one python handles as such *)
 Theorem literals_agree : tables_agree = true.
 Proof. exact literals_agree_proof. Qed.
 Print Assumptions literals_agree.
+
+Theorem no_deadlock : forall c, reach c -> ~ deadlocked c.
+Proof. exact no_deadlock_proof. Qed.
+Print Assumptions no_deadlock.
+
+(* FIFO matching for any number of outstanding expects, in every session not (yet) disturbed by a
+   die/signal notice, an unlisted command or an error on the python side *)
+Theorem replies_matched : forall c, reach c -> disturbed c \/ matched c.
+Proof. exact replies_matched_proof. Qed.
+Print Assumptions replies_matched.
+
+Theorem expect_reads_own_reply :
+  forall c i w kok kbad r g rest,
+    reach c -> ~ disturbed c -> py c = PRead1 (i, w) kok kbad -> d2p c = (r, g) :: rest ->
+    answers (i, w) (r, g).
+Proof. exact expect_reads_own_reply_proof. Qed.
+Print Assumptions expect_reads_own_reply.
 
 Theorem unknown_is_error_daemon :
   forall s c f s' out,
@@ -19,3 +40,15 @@ Theorem unknown_is_error_python :
     stepf c (LR r ch) = Some c' -> py c' = PExec Err.
 Proof. exact handler_read_unknown_proof. Qed.
 Print Assumptions unknown_is_error_python.
+
+Theorem notice_ends_session :
+  forall c r ch c', isnotice r = true -> stepf c (LR r ch) = Some c' -> py_over (py c') = true.
+Proof. exact notice_ends_session_proof. Qed.
+Print Assumptions notice_ends_session.
+
+Theorem accepted_trace_is_behaviour :
+  forall sandbox os, accepts_obs sandbox os = true ->
+    exists ls c, run conf label stepf (conf0 sandbox) ls = Some c
+                 /\ obs_list_eqb (project ls) os = true /\ reach c.
+Proof. exact accepted_trace_is_behaviour_proof. Qed.
+Print Assumptions accepted_trace_is_behaviour.
